@@ -128,19 +128,24 @@ func (p *Provider) Execute(ctx context.Context, name string, args []interface{})
 	}
 	n := len(args)
 	var in []reflect.Value
+	f := method.Func()
+	ft := f.Type()
+	offset := 0
 	if method.PassContext() {
 		in = make([]reflect.Value, n+1)
 		in[0] = reflect.ValueOf(ctx)
-		for i := 0; i < n; i++ {
-			in[i+1] = reflect.ValueOf(args[i])
-		}
+		offset = 1
 	} else {
 		in = make([]reflect.Value, n)
-		for i := 0; i < n; i++ {
-			in[i] = reflect.ValueOf(args[i])
+	}
+	for i := 0; i < n; i++ {
+		if args[i] == nil {
+			// a nil argument is the zero value of the parameter's type
+			in[i+offset] = reflect.Zero(parameterType(ft, i+offset))
+		} else {
+			in[i+offset] = reflect.ValueOf(args[i])
 		}
 	}
-	f := method.Func()
 	out := f.Call(in)
 	n = len(out)
 	if method.ReturnError() {
@@ -345,4 +350,14 @@ func (p *Provider) AddMissingMethod(f interface{}) *Provider {
 func (p *Provider) AddNetRPCMethods(rcvr interface{}, namespace ...string) *Provider {
 	p.methodManager.AddNetRPCMethods(rcvr, namespace...)
 	return p
+}
+
+// parameterType returns the type of the i-th argument of a call of a function of type ft.
+func parameterType(ft reflect.Type, i int) reflect.Type {
+	if n := ft.NumIn(); ft.IsVariadic() && i >= n-1 {
+		return ft.In(n - 1).Elem()
+	} else if i < n {
+		return ft.In(i)
+	}
+	return reflect.TypeOf((*interface{})(nil)).Elem()
 }
